@@ -84,13 +84,19 @@ Record dcase := mkDCase {
 Definition zero : bytes := fun _ => 0.
 Definition len (d : list N) : N := N.of_nat (length d).
 
+(** The global-storage middleware flushes like the default one (flushCachesFirst:
+    needFlushing, and only when GPUs are registered); the storage is touched when
+    the last flush answer has arrived (at once when no flush is needed). *)
+Definition magic_flush (c : dcase) (bufs : list buffer) (a n : N) : bool :=
+  negb (Nat.leb (length (d_devs c)) 1) && need_flushing bufs a n.
+
 Definition run_op (c : dcase) (pt : ptable) (o : op) (bufs : list buffer) (m : bytes) : oobs * bytes :=
   let crash := (mkOObs true false [] [], m) in
   match o with
   | OpH2D a data =>
     match split_pages (d_lg c) pt a (len data) with
     | Ok l =>
-      if d_magic c then (mkOObs false false [] [], h2d (of_list data) l m) else
+      if d_magic c then (mkOObs false (magic_flush c bufs a (len data)) [] [], h2d (of_list data) l m) else
       match reqs_of (d_devs c) l with
       | Some rs => (mkOObs false (need_flushing bufs a (len data)) rs [], h2d (of_list data) l m)
       | None => crash
@@ -101,7 +107,7 @@ Definition run_op (c : dcase) (pt : ptable) (o : op) (bufs : list buffer) (m : b
     match split_pages (d_lg c) pt a n with
     | Ok l =>
       let out := to_list (d2h m l zero) 0 n in
-      if d_magic c then (mkOObs false false [] out, m) else
+      if d_magic c then (mkOObs false (magic_flush c bufs a n) [] out, m) else
       match reqs_of (d_devs c) l with
       | Some rs => (mkOObs false (need_flushing bufs a n) rs out, m)
       | None => crash
@@ -141,7 +147,7 @@ Definition oobs_eqb (a b : oobs) : bool :=
 Definition after_ok (c : dcase) (o : op) (exp : oobs) (co : cobs) : bool :=
   match o with
   | OpH2D _ _ | OpD2H _ _ =>
-    if d_magic c || o_crash exp then true else
+    if o_crash exp then true else
     let nflush := if o_flush exp then (length (d_devs c) - 1)%nat else 0%nat in
     co_after co =? expect_after nflush (length (o_reqs exp)) (co_order co)
   | _ => true
